@@ -1,6 +1,7 @@
 # C04 Netcode payloads: only authentic ones surface, each at most once (anti-replay) — structural clauses
 import re
 from sa.rules import *
+import rules.shared as shared
 from rules.netcode_common import *
 from rules.oblcommon import obl_rule
 
@@ -77,6 +78,26 @@ def rules(t):
         r.site(s)
         if "as Payload" not in fmt(t.stored(s)): r.bad("client-src", s, "client surfaces something else than the decoded payload")
     out.append(r)
+    a = t.fn("ReplayProtection::advance_sequence")
+    r = RuleResult("C04.g", "every accepted sequence is recorded in the window: advance_sequence stores the sequence into received_packet[seq % N] on every path; most_recent only grows", floor=2)
+    rec = [s for s in t.sites(a) if s.node["k"] == "assign" and s.node["place"]["proj"] and s.node["place"]["proj"][-1]["k"] in ("index", "cindex") and "received_packet" in fmt(t.place(s))]
+    for s in rec:
+        r.site(s, fmt(t.place(s))[-50:])
+        if fmt(strip(t.stored(s))) != "P2(sequence)": r.bad("value", s, f"window slot set to {fmt(t.stored(s))[:40]}, not the accepted sequence")
+        if not re.search(r"\[\(P2\(sequence\) Rem 256\)\]$|\[\(P2\(sequence\) Rem \d+\)\]$", fmt(t.place(s))): r.bad("slot", s, f"window slot index is {fmt(t.place(s))[-40:]}, not sequence % window size")
+    ok, w = must_pass(a, (0, -1), {pos(s) for s in rec})
+    if not ok: r.bad("skipped", Site(a, 0, 0, a.blocks[0]["term"]), "advance_sequence can return without recording the sequence in received_packet: a packet accepted behind the newest one could be accepted again")
+    for s in t.stores("ReplayProtection", "most_recent_sequence", a):
+        r.site(s)
+        g = list(t.find_cmp(a, lambda x: fmt(strip(x)) == "P2(sequence)", lambda y: t.is_field(y, "most_recent_sequence"), None))
+        implies_ge = any((op in ("Gt", "Ge") and t.edge_dominates(a, te, s.bb)) or (op in ("Lt", "Le") and t.edge_dominates(a, fe, s.bb)) for br, op, te, fe in g)
+        if fmt(strip(t.stored(s))) != "P2(sequence)" or not implies_ge: r.bad("recent", s, "most_recent_sequence can decrease (store not behind a test implying sequence >= most_recent_sequence)")
+    ar = t.fn("ReplayProtection::already_received")
+    idx = [fmt(o) for br in t.branches(ar) if br["kind"] == "bool" for o in [br["raw"]] if "received_packet" in fmt(o)]
+    for i_ in idx:
+        if "(P2(sequence) Rem 256)" not in i_: r.bad("slot-read", None, f"already_received reads another slot than sequence % 256: {i_[:80]}")
+    out.append(r)
     r, d = obl_rule("C04.f", "OBL: replay window arithmetic cannot overflow or index out of range", "netcode", floor=4, select=lambda s_: "replay_protection" in s_["fn"])
     out.append(r)
+    out.append(shared.aad_rule(t, "C04.e", "packet"))
     return out
